@@ -71,11 +71,16 @@ def run_virtual(fn: Callable[[], Awaitable[Any]]) -> Any:
     finally:
         try:
             # cancel leftovers so nothing outlives a case
-            pending = [t for t in asyncio.all_tasks(loop) if not t.done()]
-            for t in pending:
-                t.cancel()
-            if pending:
-                loop.run_until_complete(asyncio.gather(*pending, return_exceptions=True))
+            async def _reap():
+                for _ in range(40):
+                    pending = [t for t in asyncio.all_tasks(loop) if not t.done() and t is not asyncio.current_task()]
+                    if not pending:
+                        return
+                    for t in pending:
+                        t.cancel()
+                    await asyncio.wait(pending, timeout=0.0137)
+
+            loop.run_until_complete(_reap())
             loop.run_until_complete(loop.shutdown_asyncgens())
         except Exception:
             pass
